@@ -1,5 +1,5 @@
 """Growth suite X11 (Evaluator): the generation-evaluation protocol of the shipped example evaluators (examples/xor,
-examples/pole) together with Generation.FillPopulationStatistics and the result files of experiment/utils - code of the
+examples/pole, examples/pole2 Markov) together with Generation.FillPopulationStatistics and the result files of experiment/utils - code of the
 repository that none of the 20 listed properties reaches.  TLC checks the laws of spec/Evaluator.tla on every small
 population (MC_Evaluator); harness/cmd/vh_x11 calls the real GenerationEvaluate on real populations (evolved XOR / pole
 populations, hand-made XOR solvers of graded quality injected at random positions) and TLC validates every call against
@@ -17,7 +17,7 @@ EXTRA = {
  "X11": dict(
   title="an example evaluator's GenerationEvaluate leaves the generation record, the winner flags and the result files its protocol says",
   text="spec/Evaluator.tla: organisms are evaluated in the order of Population.Organisms; a winner becomes champion when there is none or its fitness is STRICTLY greater (Solved, WinnerNodes = genome nodes, WinnerGenes = enabled genes, WinnerEvals = PopSize * generation + genome id; an 'optimal' genome file for every such champion with 5 (XOR) / 7 (pole) nodes); FillPopulationStatistics: diversity, per species (list order) age, best fitness, complexity (phenotype nodes + links) of a best organism; unsolved: the champion is a best organism of the FIRST species holding the population's best fitness; population file gen_<id> iff solved or id % PrintEvery = 0; winner files (plain genome, XOR also DOT, Cytoscape) named after the champion's phenotype node-link counts iff solved; the output directory holds exactly these files. Fitness scales: XOR fitness = (4 - e)^2, Error = e^2, winner iff fitness > 15.5; pole: fitness + error = 1, winner iff fitness = 1. MC_Evaluator checks on every population in scope: solved iff somebody won; the champion is the FIRST winner of maximal fitness; unsolved champions are of maximal fitness in the population; the file laws; champions along the walk strictly increase.",
-  note="Design level exhaustive: <= 3 (thorough 5) organisms x 3 (5) fitness classes around the winner threshold x 2 genome sizes x every split into <= 2 species in either order x 3 generation numbers x 2 evaluators. Conformance by trace validation of seeded scenarios (quick 60, thorough 1500 calls): populations of 8-30 evolved for 1-4 epochs under random fitness (several species), XOR populations with 0-3 hand-made solvers (1 or 2 hidden nodes; weight scale 1 = near miss, 2 / 3 / 3 / 6 = winners, equal scales give EXACT fitness ties) at random positions, pole populations with win thresholds 3 / 10 / 40 / 200 steps and fixed or random start state; generation ids 0-10, PrintEvery 1 / 2 / 3 / 10, trial ids 0-2. Every run also corrupts copies of the recorded trace (winner evaluations, a removed / an added file, another champion, the solved flag, a winner flag, a complexity) and requires Trace_Evaluator to reject each. Fixed point 2^-20 for fitness values (2^-10 inside the squared XOR relation: TLC has 32-bit integers). Not covered: the physics of the cart (doAction), the double-pole example, the parallel pole evaluator, the content of the written files (X06 / C15 cover the writers), executor.go. OBSERVATION (not a violation): an XOR organism whose network has depth 0 is skipped by the evaluation and keeps whatever fitness / winner flag it had before.",
+  note="Design level exhaustive: <= 3 (thorough 5) organisms x 3 (5) fitness classes around the winner threshold x 2 genome sizes x every split into <= 2 species in either order x 3 generation numbers x 2 evaluators. Conformance by trace validation of seeded scenarios (quick 60, thorough 1500 calls): populations of 8-30 evolved for 1-4 epochs under random fitness (several species), XOR populations with 0-3 hand-made solvers (1 or 2 hidden nodes; weight scale 1 = near miss, 2 / 3 / 3 / 6 = winners, equal scales give EXACT fitness ties) at random positions, pole populations with win thresholds 3 / 10 / 40 / 200 steps and fixed or random start state; generation ids 0-10, PrintEvery 1 / 2 / 3 / 10, trial ids 0-2. Every run also corrupts copies of the recorded trace (winner evaluations, a removed / an added file, another champion, the solved flag, a winner flag, a complexity) and requires Trace_Evaluator to reject each. Fixed point 2^-20 for fitness values (2^-10 inside the squared XOR relation: TLC has 32-bit integers). The double-pole Markov evaluator (examples/pole2) is driven too (same protocol, files pole2_*, no optimal dump; random populations never balance 100 000 steps, so only its unsolved path is exercised). Not covered: the physics of the carts, the non-Markov double-pole generalisation test, the parallel pole evaluators, the content of the written files (X06 / C15 cover the writers), executor.go. OBSERVATION (not a violation): an XOR organism whose network has depth 0 is skipped by the evaluation and keeps whatever fitness / winner flag it had before.",
   technique=B1),
 }
 
